@@ -133,13 +133,38 @@ def _clock_sources(ctx):
     mod = ctx.repo.module(MOD)
     allowed = {'utcnow', 'utcnow_ts', 'set_time_override'}
     n = 0
-    # private helpers that are only ever called from the allowed functions
-    # (or from other such helpers) may read the clock on their behalf
+    # private names (helpers, dispatch tables) that are only ever *referred
+    # to* from the allowed functions - directly, through other such names,
+    # or through a module-level table - may read the clock on their behalf
+    def holder(node):
+        """Top-level function (or module-level assignment target) that a
+        node belongs to."""
+        n, top = node, None
+        while getattr(n, '_parent', None) is not None:
+            top = n
+            n = n._parent
+        if isinstance(top, (ast.FunctionDef, ast.ClassDef)):
+            return {top.name}
+        if isinstance(top, ast.Assign):
+            return {t.id for t in top.targets if isinstance(t, ast.Name)} \
+                or {'<module>'}
+        if isinstance(top, ast.AnnAssign) and isinstance(top.target,
+                                                         ast.Name):
+            return {top.target.id}
+        return {'<module>'}
+    defined = set()
+    for st in mod.tree.body:
+        if isinstance(st, (ast.FunctionDef, ast.ClassDef)):
+            defined.add(st.name)
+        elif isinstance(st, ast.Assign):
+            defined.update(t.id for t in st.targets
+                           if isinstance(t, ast.Name))
     callers = {}
     for node in ast.walk(mod.tree):
-        if isinstance(node, ast.Call) and isinstance(node.func, ast.Name):
-            callers.setdefault(node.func.id, set()).add(
-                enclosing_function(node).split('.')[0])
+        if isinstance(node, ast.Name) and isinstance(node.ctx, ast.Load) \
+                and node.id in defined:
+            callers.setdefault(node.id, set()).update(
+                holder(node) - {node.id})
     helpers = set()
     changed = True
     while changed:
@@ -158,7 +183,7 @@ def _clock_sources(ctx):
                 n += 1
                 fn = enclosing_function(node)
                 rep.check('R12.1', 'clock-read in %s' % fn,
-                          fn.split('.')[0] in allowed | helpers,
+                          holder(node) <= allowed | helpers,
                           '%s() is called in %s; the wall clock may only be '
                           'read by %s (everything else must go through '
                           'utcnow() so that an override applies)' % (
@@ -471,6 +496,10 @@ def _override(ctx):
                                setup=_setup(extra, stub_now=False))
         ok = len(outcomes) == 1 and outcomes[0].kind == 'return' and \
             outcomes[0].value == TupleV([OVERRIDE, K(None)])
+        if inexact_notes(outcomes):
+            rep.undecided('R12.3', 'set/clear_time_override', 'inexact: %s'
+                          % inexact_notes(outcomes))
+            ok = True
         rep.check('R12.3', 'set/clear_time_override', ok,
                   'set stores the given instant, clear stores None; found '
                   '%s' % [o.brief() for o in outcomes][:2])
@@ -609,6 +638,10 @@ def _fixture(ctx):
     outcomes, _i = extract(world, thunk, setup=_setup(extra))
     ok = False
     detail = [o.brief() for o in outcomes]
+    notes = inexact_notes(outcomes)
+    if notes:
+        rep.undecided('R12.3', 'TimeFixture', 'inexact: %s' % notes)
+        return
     if len(outcomes) == 1 and outcomes[0].kind == 'return':
         o = outcomes[0]
         sets = o.calls('set_time_override')
